@@ -47,6 +47,15 @@ func genStr(t *rapid.T, pool []string, label string) string {
 	case 1:
 		n := rapid.SampledFrom([]int{100, 127, 128, 300, 4000, 5000}).Draw(t, label+"long")
 		return strings.Repeat(rapid.SampledFrom([]string{"a", "Z", "\x00", "\xff", "é"}).Draw(t, label+"ch"), n)
+	case 2:
+		// lengths at the boundaries of the prefixed-integer encoding (7-bit prefix: 126..128, then
+		// 127+128k); bytes with long Huffman codes so that the encoder sends them raw at that length,
+		// and 'a' (5-bit code) so that the Huffman form lands on the boundary (408 x 'a' -> 255 octets)
+		n := rapid.SampledFrom([]int{126, 127, 128, 254, 255, 256, 383, 16510, 16511, 16638, 16639}).Draw(t, label+"edge")
+		if rapid.Bool().Draw(t, label+"huff") {
+			return strings.Repeat("a", n*8/5)
+		}
+		return strings.Repeat("\x00", n)
 	default:
 		return rapid.SampledFrom(pool).Draw(t, label)
 	}
@@ -67,9 +76,9 @@ func genRT(t *rapid.T) RTScript {
 	for i := 0; i < n; i++ {
 		switch rapid.IntRange(0, 5).Draw(t, "op") {
 		case 0:
-			s.Ops = append(s.Ops, RTOp{Op: "enc_max", V: rapid.SampledFrom([]uint32{0, 1, 32, 64, 100, 200, 4096, 8192, 1 << 20}).Draw(t, "em")})
+			s.Ops = append(s.Ops, RTOp{Op: "enc_max", V: rapid.SampledFrom([]uint32{0, 1, 30, 31, 32, 64, 100, 158, 159, 160, 200, 4096, 8192, 1 << 20}).Draw(t, "em")})
 		case 1:
-			s.Ops = append(s.Ops, RTOp{Op: "settings", V: rapid.SampledFrom([]uint32{0, 40, 100, 300, 4096, 65536}).Draw(t, "sv")})
+			s.Ops = append(s.Ops, RTOp{Op: "settings", V: rapid.SampledFrom([]uint32{0, 40, 100, 159, 300, 4096, 16415, 65536}).Draw(t, "sv")})
 		default:
 			s.Ops = append(s.Ops, RTOp{Op: "block", Fields: genFields(t)})
 		}
